@@ -149,6 +149,15 @@ def check_C01(tier, rng, rep):
     un = "U2cross" if quick else "U2cross"
     rep.add_tlc("ShapeSys/%s/r2" % un, models.shapesys_check(un, regs=2, maxobj=4, props=["ResultIsSetAlgebra"], invs=["TypeOK"],
                                                                 acts=("make", "bin", "inv")))
+    # the code-shaped model of FollowPath (split, classify by mid-point, pursue, assemble) yields
+    # exactly the boundary loops of the set-theoretic result for every transversal pair ...
+    for un in (["U2cross", "U2comb", "U3hole", "U3venn"] if quick else U2 + U3):
+        rep.add_tlc("FollowPath/" + un, models.followpath(un))
+    # ... and is refuted on touching operands (model-level explanation of F-C01-nontransversal-U3)
+    rf = models.followpath("U3hole", invariants=("RefutedOnTouching",), tag="MCFR_U3hole")
+    rep.cov["tlc_runs"].append({"model": "FollowPath/U3hole touching operands (expected counterexample)", "violated": rf.violated, "distinct_states": rf.distinct})
+    if rf.violated != "RefutedOnTouching":
+        rep.machinery.append("FollowPath on touching operands should be refuted on U3hole but TLC says %r" % rf.violated)
     # (b) one-step behaviours: every operator on every ordered pair of pinch-free regions
     jobs = []
     o = {"check_c10": False}
